@@ -586,4 +586,23 @@ def run(chk, F):
         "the lock-word protocol are not decided (model checking)",
         "Dora code is analysed syntactically (receiver paths self.data / mtx / self.asm)",
     ]
+    rule_r9(chk, F)
     from rules import a64; a64.run_c09(chk, F)  # noqa: E702  arm64 siblings (aarch64 fact set)
+
+
+def rule_r9(chk, F):
+    """C09.R9: the BaselineAssembler's pass-through wrappers of the atomic operations call their namesake in the
+    macro assembler (both targets) — see rules/forwarders.py."""
+    from rules import forwarders
+    r = chk.rule("C09.R9", "every pass-through wrapper of an atomic operation (`*_synchronized`) in the baseline "
+                           "assembler forwards to the macro-assembler method of its own name (a wrapper that forwards "
+                           "to a sibling performs the operation at another width)")
+    n = forwarders.run(r, F.crate("dora_cannon_compiler"), lambda nm: nm.endswith("_synchronized"), "x64:")
+    try:
+        n2 = forwarders.run(r, F.a64().crate("dora_cannon_compiler"), lambda nm: nm.endswith("_synchronized"),
+                            "arm64:")
+    except Exception as e:                                       # noqa: BLE001
+        r.observe("aarch64 facts unavailable: %s" % e)
+        n2 = 0
+    r.floor("pass-through wrappers of atomic operations (x64 build)", n, 10)
+    r.floor("pass-through wrappers of atomic operations (aarch64 build)", n2, 10)
